@@ -2,6 +2,7 @@ package main
 
 import (
 	"fmt"
+	"go/types"
 	"strings"
 
 	"golang.org/x/tools/go/ssa"
@@ -32,7 +33,7 @@ func (a *An) c18StateWriters() {
 	}
 	seen := map[string]bool{}
 	for _, st := range a.StoresTo(fld) {
-		fn := a.C.Name(st.Parent())
+		fn := a.C.Name(a.C.owner(st.Parent()))
 		v := a.C.Term(st.Val)
 		w, ok := want[fn]
 		R.Check(ok && v == w, "W.msg-state", "store msgState|"+fn, "message state written only by the three lifecycle functions with their constant", a.C.InstrPos(st), fn+" stores "+v)
@@ -140,17 +141,7 @@ func (a *An) akeContextDropped(rule string) {
 		if fn == nil || fld == nil {
 			continue
 		}
-		ok := false
-		for _, st := range a.DirectStoresTo(fld) {
-			if st.Parent() == fn && isNilConst(st.Val) {
-				ok = true
-				for _, r := range a.returnsOf(fn) {
-					if !instrDominates(st, r) {
-						ok = false
-					}
-				}
-			}
-		}
+		ok := a.dropsField(fn, fld, 0)
 		a.R.Check(ok, rule, name+"|drops-ake", "the key exchange context is dropped (c.ake = nil) on every path", a.C.Pos(fn.Pos()), "no dominating store of nil to Conversation.ake")
 	}
 }
@@ -290,7 +281,7 @@ func (a *An) c18Resend() {
 			}
 			// what is generated is the queued text (possibly transformed)
 			t := a.C.Term(g.Common().Args[1])
-			R.Check(strings.Contains(t, "messageToResend).m"), rule, "retransmit|payload", "the generated message carries the queued text", a.C.InstrPos(g), "payload "+t)
+			R.Check(strings.Contains(t, "messageToResend).m") || strings.Contains(t, "(*resendContext).pending[].m"), rule, "retransmit|payload", "the generated message carries the queued text", a.C.InstrPos(g), "payload "+t)
 		} else if len(gens) != 1 {
 			R.Viol(rule, "retransmit|gen", "retransmit generates data messages in one place", a.C.Pos(rt.Pos()), fmt.Sprintf("%d", len(gens)))
 		}
@@ -313,4 +304,46 @@ func (a *An) c18Resend() {
 		a.SuccessRequires(rule, sr, "passed:(len(resendContext.messages.m) > 0)", "passed:(resendContext.mayRetransmit != "+a.MustConst("noRetransmit")+")")
 	}
 	R.Floor(rule, 14)
+}
+
+// dropsField: every return of f is dominated by a store of nil to the field (through a path rooted at a parameter), made
+// in f itself or in a function of the two packages that f calls with that property (a helper shared by several callers).
+func (a *An) dropsField(f *ssa.Function, fld *types.Var, depth int) bool {
+	if f == nil || f.Blocks == nil || depth > 2 {
+		return false
+	}
+	var droppers []ssa.Instruction
+	for _, b := range f.Blocks {
+		for _, in := range b.Instrs {
+			switch x := in.(type) {
+			case *ssa.Store:
+				if fa, ok := x.Addr.(*ssa.FieldAddr); ok && fieldOf(fa) == fld && isNilConst(x.Val) {
+					droppers = append(droppers, in)
+				}
+			case *ssa.Call:
+				if g := x.Call.StaticCallee(); g != nil && a.C.IsLib(g) && g != f && a.dropsField(g, fld, depth+1) {
+					droppers = append(droppers, in)
+				}
+			}
+		}
+	}
+	rets := a.returnsOf(f)
+	if len(rets) == 0 {
+		return false
+	}
+	for _, r := range rets {
+		dom := false
+		for _, d := range droppers {
+			if instrDominates(d, r) {
+				dom = true
+			}
+		}
+		if !dom {
+			// or the field is known to be nil already on this path
+			if !a.F.LocalAt(r).Has("passed:(" + typeName(fld.Pkg().Scope().Lookup("Conversation").Type()) + "." + fld.Name() + " == nil)") {
+				return false
+			}
+		}
+	}
+	return true
 }
